@@ -56,6 +56,7 @@ def configs(tier, seed):
                          style=style, kaldi=kaldi, NMAX=(3 if tier == 'quick' else 4) * L))
     cfgs.append(dict(kind='flow', name='flow'))
     cfgs.append(dict(kind='deflen', name='deflen'))
+    cfgs.append(dict(kind='ctor', name='ctor frame_style / kaldi_shift resolution'))
     return cfgs
 
 
@@ -526,8 +527,94 @@ def run_deflen(cfg):
     return dict(obligations=ob, discharged=dis, violations=viol, samples=[{'config': 'deflen', 'rates': [8000, 16000, 11025]}], twin=ob > 0)
 
 
+def run_ctor(cfg):
+    """the frame bounds obligations ('cover') start from the fields _frame_style / _kaldi_shift; this closes the gap to the
+    constructor ARGUMENTS: real __init__ (run up to the window request) with symbolic bank.is_zero_phase and kaldi_shift,
+    every frame_style argument; the fields must be the documented resolution (None -> centered iff zero phase)."""
+    import math
+
+    class Stop(Exception):
+        pass
+
+    class NPx(sc.NP):
+        @staticmethod
+        def ceil(v):
+            return symex.sceil(v) if symex.is_sym(v) else math.ceil(v)
+
+        @staticmethod
+        def empty(shape, dtype=None):
+            return ('buf', shape)
+    ns = sc.load_compute({'np': NPx, 'config': Cfg, 'int': symex.sint})
+    LFB = ns['LinearFilterBank']
+    WF = ns['WindowFunction']
+    cls = ns['ShortTimeFourierTransformFrameComputer']
+
+    class StubWin(WF):
+        def get_impulse_response(s, width):
+            raise Stop()
+
+    viol = []
+    ob = dis = 0
+    for style_arg in (None, 'centered', 'causal'):
+        def body():
+            zp = z3.Bool('is_zero_phase')
+            ks = z3.Bool('kaldi_shift')
+
+            class StubBank(LFB):
+                is_real = False
+                is_analytic = False
+                is_zero_phase = symex.SBool(zp)
+                num_filts = 2
+                sampling_rate = 1000
+                supports = ((0, 4), (0, 5))
+                supports_hz = ((10, 100), (50, 200))
+
+                def get_impulse_response(s, i, w):
+                    raise AssertionError
+
+                def get_frequency_response(s, i, w, half=False):
+                    raise AssertionError
+
+                def get_truncated_response(s, i, w):
+                    raise AssertionError
+            o = cls.__new__(cls)
+            try:
+                cls.__init__(o, StubBank(), frame_length_ms=8, frame_shift_ms=3, frame_style=style_arg, window_function=StubWin(), kaldi_shift=symex.SBool(ks))
+            except Stop:
+                pass
+            return zp, ks, o.__dict__.get('_frame_style'), o.__dict__.get('_kaldi_shift')
+        for ctx, res in explore(body):
+            if res is None:
+                continue
+            ob += 1
+            zp, ks, fs, fk = res
+            s = ctx.solver
+            bad = []
+            for eff, cond in (('centered', z3.BoolVal(style_arg == 'centered') if style_arg is not None else zp),
+                              ('causal', z3.BoolVal(style_arg == 'causal') if style_arg is not None else z3.Not(zp))):
+                bad.append(z3.And(cond, z3.BoolVal(not (isinstance(fs, str) and fs == eff))))
+            fkz = fk.z if isinstance(fk, symex.SBool) else z3.BoolVal(bool(fk))
+            eff_centered = z3.BoolVal(style_arg == 'centered') if style_arg is not None else zp
+            bad.append(z3.And(eff_centered, fkz != ks))        # for causal frames the flag is documented to be irrelevant
+            s.push()
+            s.add(z3.Or(bad))
+            r = check_sat(s)
+            if r == 'sat':
+                m = s.model()
+                viol.append(dict(kind='ctor', what='constructor resolution of frame_style / kaldi_shift', style_arg=style_arg,
+                                 zero_phase=z3.is_true(m.eval(zp, True)), kaldi=z3.is_true(m.eval(ks, True)),
+                                 fields='_frame_style=%r _kaldi_shift=%s' % (fs, fk if not isinstance(fk, symex.SBool) else z3.simplify(fk.z)),
+                                 **{'class': 'ctor/%s' % style_arg}))
+            elif r == 'unsat':
+                dis += 1
+            else:
+                raise symex.Inconclusive('solver: %s' % r)
+            s.pop()
+    return dict(obligations=ob, discharged=dis, violations=viol, samples=[{'config': 'ctor', 'frame_style arguments': [None, 'centered', 'causal']}], twin=ob > 0)
+
+
 def run_config(cfg):
-    return {'walk': run_walk, 'cover': run_cover, 'flow': run_flow, 'deflen': run_deflen}[cfg['kind']](cfg)
+    return {'walk': run_walk, 'cover': run_cover, 'flow': run_flow, 'deflen': run_deflen, 'ctor': run_ctor}[cfg['kind']](cfg)
 
 
 # ------------------------------------------------------------------ replay
@@ -651,6 +738,36 @@ def replay(w):
             if d > worst[0]:
                 worst = (d, 'scale %g flags %s: got %s want %s' % (scale, flags, got, want))
         return {'reproduced': worst[0] > 1e-9, 'detail': worst[1] or 'matches at all signal levels'}
+    if k == 'ctor':
+        from pydrobert.speech.filters import TriangularOverlappingFilterBank, ComplexGammatoneFilterBank
+        zp, ks, style_arg = w['zero_phase'], w['kaldi'], w['style_arg']
+        bank = (TriangularOverlappingFilterBank if zp else ComplexGammatoneFilterBank)('mel', num_filts=3, sampling_rate=1000, low_hz=20)
+        if bool(bank.is_zero_phase) != zp:
+            return {'reproduced': False, 'detail': 'no real bank with is_zero_phase=%s at hand' % zp}
+        eff = style_arg or ('centered' if zp else 'causal')
+        for L, S in ((8, 3), (6, 2), (7, 4)):
+            for N in (L // 2 + 1, L, 2 * L + 1):
+                c = STFTFrameComputer(bank, frame_length_ms=L, frame_shift_ms=S, frame_style=style_arg, kaldi_shift=ks, pad_to_nearest_power_of_two=False, window_function='hamming')
+                xs = np.arange(1, N + 1, dtype=np.float64)
+                got = []
+                c._compute_frame = lambda frame, coeffs: got.append(np.array(frame))
+                try:
+                    c.compute_full(xs)
+                except Exception as e:
+                    return {'reproduced': True, 'detail': 'compute_full raised %s: %s' % (type(e).__name__, e)}
+                pl = sc.pad_left(L, S, eff, ks)
+                nf = (N + S // 2) // S
+                if len(got) != nf:
+                    return {'reproduced': True, 'detail': 'frame_style=%r on a %szero-phase bank, kaldi_shift=%s: frame count %d != documented %d (L=%d S=%d N=%d)' % (style_arg, '' if zp else 'non-', ks, len(got), nf, L, S, N)}
+                for kf, fr in enumerate(got):
+                    for j in range(L):
+                        p = kf * S + j - pl
+                        q = p % (2 * N)
+                        q = 2 * N - 1 - q if q >= N else q
+                        if fr[j] != xs[q]:
+                            return {'reproduced': True, 'detail': 'frame_style=%r on a %szero-phase bank, kaldi_shift=%s (L=%d S=%d N=%d): frame %d sample %d is x[%d], documented (%s frames) x[%d]'
+                                    % (style_arg, '' if zp else 'non-', ks, L, S, N, kf, j, int(fr[j]) - 1, eff, q)}
+        return {'reproduced': False, 'detail': 'real constructor + compute_full give the documented frames'}
     return {'reproduced': False, 'detail': 'no concrete replay for %s' % k}
 
 
